@@ -31,6 +31,13 @@ def show(v, depth=0):
     return str(v)
 
 
+class Boxed(int):
+    """a PRESENT optional in the boxed form a built-in hands out: to the language it IS the plain value (==, index_of, printing); to the search it is
+    a different state component, so that a history which stores the boxed form is not merged with one that stores the plain value"""
+    def __deepcopy__(self, memo):
+        return Boxed(int(self))
+
+
 class L:
     def __init__(self, items):
         self.items = items
@@ -90,6 +97,8 @@ class ListMapModel(Model):
                     return ("ref", ids[id(v)])
                 ids[id(v)] = len(ids)
                 return ("M", ids[id(v)], tuple(sorted((k, c(x)) for k, x in v.d.items())))
+            if isinstance(v, Boxed):
+                return ("boxed", int(v))
             return v
         return tuple((n, c(st[n])) for n in sorted(st))
 
@@ -320,7 +329,7 @@ class ListMapModel(Model):
             else:
                 obs.append(show(L([x for x in st[op[1]].items if x == "b"])))
         elif k == "pushbox":
-            st[op[1]].items.append(op[2])
+            st[op[1]].items.append(Boxed(op[2]) if op[2] is not None else None)
         elif k in ("filter_mut", "map_mut"):
             items, res, i = st[op[1]].items, [], 0
             while i < len(items):
